@@ -207,6 +207,8 @@ pub fn apply_change_to_db_try_fix_conflicts(
 pub fn unwatch_key(key: &String, sender: &Sender<String>, db: &Database) -> Response {
     // The list is copied, filtered and written back under one write lock, so that a
     // registration another client makes meanwhile is not overwritten with the stale copy
+    #[cfg(nun_verif)]
+    crate::verif::yield_point("unwatch_key.watchers.write");
     let mut watchers = db.watchers.map.write().expect("db.watchers.map.lock");
     let mut senders = match watchers.get(key) {
         Some(watchers_vec) => watchers_vec.clone(),
